@@ -1018,7 +1018,9 @@ class DateTime(datetime.datetime, Date):
 
         dt = self if keep_time else self.start_of("day")
 
-        return dt.add(days=(day_of_week - dt.day_of_week - 1) % 7 + 1)
+        dt = dt.add(days=(day_of_week - dt.day_of_week - 1) % 7 + 1)
+
+        return dt if keep_time else dt.start_of("day")
 
     def previous(
         self, day_of_week: WeekDay | None = None, keep_time: bool = False
@@ -1037,7 +1039,9 @@ class DateTime(datetime.datetime, Date):
 
         dt = self if keep_time else self.start_of("day")
 
-        return dt.subtract(days=(dt.day_of_week - day_of_week - 1) % 7 + 1)
+        dt = dt.subtract(days=(dt.day_of_week - day_of_week - 1) % 7 + 1)
+
+        return dt if keep_time else dt.start_of("day")
 
     def first_of(self, unit: str, day_of_week: WeekDay | None = None) -> Self:
         """
@@ -1091,6 +1095,24 @@ class DateTime(datetime.datetime, Date):
 
         return dt
 
+    def _noon_on(self, month: int | None = None, day: int | None = None) -> Self:
+        """
+        Noon of the given day (of the given month) of the current year.
+
+        The date navigation goes through noon: keeping the time of the
+        instance, or midnight, can land on a wall clock time that is skipped
+        or repeated on the target day and be resolved onto another day.
+        """
+        return self.set(
+            month=month, day=day, hour=12, minute=0, second=0, microsecond=0
+        )
+
+    def _midnight_on(self, day: int) -> Self:
+        """
+        The first instant of the given day of the current month.
+        """
+        return self._noon_on(day=day).start_of("day")
+
     def _first_of_month(self, day_of_week: WeekDay | None = None) -> Self:
         """
         Modify to the first occurrence of a given day of the week
@@ -1101,7 +1123,7 @@ class DateTime(datetime.datetime, Date):
         dt = self.start_of("day")
 
         if day_of_week is None:
-            return dt.set(day=1)
+            return self._midnight_on(day=1)
 
         # Monday-first weeks, whatever calendar.setfirstweekday() says
         month = calendar.Calendar(calendar.MONDAY).monthdayscalendar(
@@ -1115,7 +1137,7 @@ class DateTime(datetime.datetime, Date):
         else:
             day_of_month = month[1][calendar_day]
 
-        return dt.set(day=day_of_month)
+        return self._midnight_on(day=day_of_month)
 
     def _last_of_month(self, day_of_week: WeekDay | None = None) -> Self:
         """
@@ -1127,7 +1149,7 @@ class DateTime(datetime.datetime, Date):
         dt = self.start_of("day")
 
         if day_of_week is None:
-            return dt.set(day=self.days_in_month)
+            return self._midnight_on(day=self.days_in_month)
 
         # Monday-first weeks, whatever calendar.setfirstweekday() says
         month = calendar.Calendar(calendar.MONDAY).monthdayscalendar(
@@ -1141,7 +1163,7 @@ class DateTime(datetime.datetime, Date):
         else:
             day_of_month = month[-2][calendar_day]
 
-        return dt.set(day=day_of_month)
+        return self._midnight_on(day=day_of_month)
 
     def _nth_of_month(
         self, nth: int, day_of_week: WeekDay | None = None
@@ -1162,7 +1184,7 @@ class DateTime(datetime.datetime, Date):
             dt = dt.next(day_of_week)
 
         if dt.format("%Y-%M") == check:
-            return self.set(day=dt.day).start_of("day")
+            return self._midnight_on(dt.day)
 
         return None
 
@@ -1173,7 +1195,7 @@ class DateTime(datetime.datetime, Date):
         modify to the first day of the quarter. Use the supplied consts
         to indicate the desired day_of_week, ex. DateTime.MONDAY.
         """
-        return self.on(self.year, self.quarter * 3 - 2, 1).first_of(
+        return self._noon_on(self.quarter * 3 - 2, 1).first_of(
             "month", day_of_week
         )
 
@@ -1184,7 +1206,7 @@ class DateTime(datetime.datetime, Date):
         modify to the last day of the quarter. Use the supplied consts
         to indicate the desired day_of_week, ex. DateTime.MONDAY.
         """
-        return self.on(self.year, self.quarter * 3, 1).last_of("month", day_of_week)
+        return self._noon_on(self.quarter * 3, 1).last_of("month", day_of_week)
 
     def _nth_of_quarter(
         self, nth: int, day_of_week: WeekDay | None = None
@@ -1199,7 +1221,7 @@ class DateTime(datetime.datetime, Date):
         if nth == 1:
             return self.first_of("quarter", day_of_week)
 
-        dt = self.set(day=1, month=self.quarter * 3)
+        dt = self._noon_on(self.quarter * 3, 1)
         last_month = dt.month
         year = dt.year
         dt = dt.first_of("quarter")
@@ -1209,7 +1231,7 @@ class DateTime(datetime.datetime, Date):
         if last_month < dt.month or year != dt.year:
             return None
 
-        return self.on(self.year, dt.month, dt.day).start_of("day")
+        return self._noon_on(dt.month, dt.day).start_of("day")
 
     def _first_of_year(self, day_of_week: WeekDay | None = None) -> Self:
         """
@@ -1218,7 +1240,7 @@ class DateTime(datetime.datetime, Date):
         modify to the first day of the year. Use the supplied consts
         to indicate the desired day_of_week, ex. DateTime.MONDAY.
         """
-        return self.set(month=1).first_of("month", day_of_week)
+        return self._noon_on(1, 1).first_of("month", day_of_week)
 
     def _last_of_year(self, day_of_week: WeekDay | None = None) -> Self:
         """
@@ -1227,7 +1249,7 @@ class DateTime(datetime.datetime, Date):
         modify to the last day of the year. Use the supplied consts
         to indicate the desired day_of_week, ex. DateTime.MONDAY.
         """
-        return self.set(month=MONTHS_PER_YEAR).last_of("month", day_of_week)
+        return self._noon_on(MONTHS_PER_YEAR, 1).last_of("month", day_of_week)
 
     def _nth_of_year(self, nth: int, day_of_week: WeekDay | None = None) -> Self | None:
         """
@@ -1248,7 +1270,7 @@ class DateTime(datetime.datetime, Date):
         if year != dt.year:
             return None
 
-        return self.on(self.year, dt.month, dt.day).start_of("day")
+        return self._noon_on(dt.month, dt.day).start_of("day")
 
     def average(  # type: ignore[override]
         self, dt: datetime.datetime | None = None
